@@ -24,7 +24,60 @@ CLAIMED = {
     note=COMMON_NOTE + "Known finding D6 (GetAndDelete never saves) is reported as KNOWN-FINDING, not repaired (no error result to report a failed save through). Print Assumptions: closed.",
     technique="Coq invariant by induction over histories + differential correspondence + trace oracle",
     design="5/C09"),
+ "C10": dict(
+    text="Coq (per call, ALL fault plans, all cache sizes/tie-breaks): at every persistence-call boundary of RegenerateID, LogIn (both modes) and Start's automatic rotation the frozen store has no dangling reference (C10_nodangling_*, plus a relative form needing no assumption on prior state); the presented ID resolves within one hop to the pre-call data and user and, once the call returned, so does the new ID (C10_resolves_*). The freeze is exactly Hist.step's crash semantics. Tie: 'crashenum' family - every persistence-call boundary of every ID-changing step of generated histories is executed on the real package (freeze-and-discard at call k, fresh process afterwards), followed by requests with old ID, new IDs and the client's jar; model compared on store/result; oracle checks dangling references and reachability on the real traces.",
+    note=COMMON_NOTE + "C10_restart (Start on the restarted state returns the content) is covered by the correspondence and oracle only, not by a theorem. Known finding D6 may show as a value returning after a crash (reported as KNOWN-FINDING).",
+    technique="Coq proof over event-log prefixes + crash-point enumeration on the real code",
+    design="5/C10"),
+ "C11": dict(
+    text="Coq, for ALL fault plans: a failed load makes Start return an error with no cookie, no delete, no draw, logical content unchanged (C11_load*); a failed flush ends compaction with the entry still cached (C11_flush); every Ok-returning mutator (Set, Delete, LogOut, RegenerateID, LogIn, creation, Start) has written through (C11_ack_*), including LogIn despite its ignored logout error; no history ever panics (C11_nopanic_history, by an invariant preserved by every step). Tie: 'faultenum' family - every single-fault placement (and sampled/all double placements) over the persistence calls of every step of generated histories, injected at the same call index in the real package and in the model; full observation compared; oracle for acknowledged-but-unsaved, load-as-miss, panics.",
+    note=COMMON_NOTE + "PurgeSessions and the delayed clean-up have no error channel and are outside the statement (by the property's own wording).",
+    technique="Coq proof over all fault plans + exhaustive single/double fault placement on the real code",
+    design="5/C11"),
+ "C13": dict(
+    text="Proved for the protocol model (labelled transition system of mutexes.go for any number of goroutines and keys, one transition per channel/critical-section action): inductive invariant, mutual exclusion per key in every reachable state of every admissible run (C13, C13_count, C13_invariant); refutation without the hold-shorter-than-staleness proviso. Partial for the real scheduler. Tie: Gen/MutexTbl.v (17 normalised source facts of mutexes.go pinned by C13_source_pinned, regenerated every run) and differential replay of quiescent observations of the REAL lock manager inside synctest bubbles (G<=12 goroutines, K<=4 keys, table limits 1/2/3, staleness, explicit purges, bursts) through the model.",
+    note=COMMON_NOTE + "Assumed: granularity argument (each transition contains exactly one synchronising action), Go scheduler fairness, channel/mutex semantics; provisos explicit in adm_run.",
+    technique="Coq inductive invariant over an LTS + AST table + synctest differential replay",
+    design="5/C13"),
+ "C14": dict(
+    text="Proved for the protocol model: no deadlock in any reachable admissible state with unfinished scripts (C14_no_deadlock), a strictly decreasing measure so every maximal run ends with all scripts finished (C14_terminates), at most one grant per release (C14_one_per_release), a spurious Unlock changes nothing but an empty entry (C14_spurious), a Lock on a free key needs no step of other keys' holders (C14_independent, hypothesis corrected to cA k = 0 and cH k = 0). Partial for the real scheduler. Tie as C13; lost wake-ups/deadlocks of the real manager are detected exactly at synctest quiescence.",
+    note=COMMON_NOTE + "Assumed: granularity argument, scheduler fairness, finiteness of purge requests; see C13.",
+    technique="Coq measure/invariant proofs over an LTS + synctest differential replay",
+    design="5/C13"),
+ "C19": dict(
+    text="26 Coq theorems over bit-level models of ids.go with Go's uint64/uint16 wrap written out: session IDs are an injective image (decoder left inverse) of exactly 16 bytes, 24 cookie-safe base64 characters passing Start's guard and a modelled Set-Cookie/Cookie round trip; RandomID(n): exactly n characters/bytes for every n, all from the 62-symbol alphabet, every symbol reachable; CUID: 11 base-62 characters, injective in the 64-bit word, timestamp arithmetic = ms since 2017 mod 2^40, later millisecond sorts after, all results distinct for every state and call sequence in which a millisecond does not recur after being left with at most 2^24 calls per ms (tightness refuted outside). Tie: constants regenerated from ids.go/session.go each run; model vs real code behind a recording crypto/rand.Reader, under the synctest clock with hook-set CUID state, concurrent callers, real net/http round trips.",
+    note=COMMON_NOTE + "crypto/rand assumed uniform (frequency/birthday tests are supporting only); base64 alphabet and cookie rules transcribed and compared with the libraries at run time; CUID atomicity: syntactic lock fact + concurrent and -race runs.",
+    technique="Coq proof over executable bit-level models + regenerated constants + differential correspondence",
+    design="5/C19"),
+ "C16": dict(
+    text="Coq theorems over all sessions and all LoadUser functions: decoding the gob encoding restores every field (nil data as empty map, user re-loaded by ID; error iff LoadUser fails), over the field layouts regenerated from GobEncode/GobDecode on every run (Gen/Layout.v), which are also proved equal to the pinned layout (C16_pinned) so that a symmetric reordering that would orphan stored records is still a broken obligation. Tie: the regenerated layout, model-vs-real round trips on generated and package-made sessions (incl. replaced-ID records from a real RegenerateID), a golden corpus of the pinned commit's bytes.",
+    note=COMMON_NOTE + "encoding/gob per-value round trip assumed (wire = typed values); time.Time's binary zone-offset form modelled and compared on every run; data restricted to nil/bool/int/float64/string/[]interface{}/map[string]interface{}; quick tier evaluates a subset of the cases in Coq, all by a Go statement cross-checked with the Coq one. No axioms.",
+    technique="Coq proof over table-driven codec interpreters + Go-AST-regenerated layout + differential correspondence + golden corpus",
+    design="5/C16"),
+ "C17": dict(
+    text="Coq theorems: JSON round trip = jnorm for all sessions in RFC 3339's domain incl. nil data (premise json_da_null_ok read from the regenerated table and discharged on every run; its negation yields the D3 witness C17_roundtrip_refuted), base-36 round trip proved for all 64-bit values, UnmarshalJSON never panics on any JSON tree (a Panic arises only at an assertion the table reports as not comma-ok), accepted trees re-encode; tables proved equal to the pinned ones. Tie: Gen/Layout.v, model-vs-real round trips, a mutation stream (10^4 quick / 10^6 thorough), a golden corpus.",
+    note=COMMON_NOTE + "encoding/json generic-tree behaviour, time.Format/Parse(RFC3339) to the second and LoadUser are Section parameters with stated hypotheses (json_lib_ok); float64(int), UTF-8 coercion, strconv base 36 are executable in the model and compared with the libraries on every run; byte strings that are not JSON are the library's to refuse (checked on the real code). Defect D3 fixed in /repo (db75d0f). No axioms.",
+    technique="Coq proof over table-driven codec interpreters + Go-AST-regenerated tables + differential correspondence + mutation stream",
+    design="5/C17"),
+ "C15": dict(
+    text="(a) data-race freedom: lockset discipline proved sound once in Coq for all well-formed traces (lockset_sound), and the per-source obligation C15_table over Gen/Access.v - every access to a field of Session, the cache, the CUID state and the lock table, with the lock state of its receiver, regenerated from the Go AST on every run - re-checked reflexively; on failure the Go race detector searches for a schedule on targeted workloads and the report naming both source lines is the replay. (b) no panics: model-level C11_nopanic_history plus panics recorded on every concurrent workload. (c) linearizability of Set/Get/Delete/GetAndDelete proved for an interleaving semantics of lock;body;unlock threads (C15_linearizable; GetAndDelete hands a value to at most one caller), tied to the source by the single_section obligation over the same table; recorded concurrent histories of the real code are judged by a linearizability checker written in Gallina. Defect D7 (13 racy accesses, and LogIn unlocking a different key than it locked) fixed in /repo (b0ff0d3).",
+    note=COMMON_NOTE + "Assumed: the translator's reading of the syntax (path-sensitive lock-state walk), sync.RWMutex semantics, the Go memory model, that goroutine-confined fields are confined. Proof for the lock discipline and for atomicity in the model; partial for the real scheduler.",
+    technique="Coq soundness proof of lockset discipline + AST-regenerated access table + Go race detector as violation search + Gallina linearizability checker",
+    design="5/C15"),
 }
+SESSION_GENERIC = ("Executable Coq model of session.go+cache.go (Model/Sess.v, Model/Hist.v) compared with the real package on the FULL observation (result, returned session, cookies, script results, every persistence call with payload, cache, store, jar, clock, IDs drawn, Expired()) after every step of generated histories run under a virtual clock behind a serialising store (gob and JSON), incl. fault and crash enumeration and a corpus of the repaired defects; a property-specific oracle judges every real trace. Theorems: those of coq/Properties/%s.v (statement file; names and Print Assumptions output are in the evidence).")
+for pid, extra, tech in [
+    ("C01", "Theorems so far: per-step isolation (a Start that returns an existing session returns the object L maps the presented/resolved ID to; a created session is empty) and the history-level invariants it rests on; the full history-level statement is kept as C01_statement. Partial: the history-level theorem is not complete.", "Coq per-step lemmas + invariants + differential correspondence + trace oracle"),
+    ("C02", "C02_unknown: for every reachable-shaped state and every unknown 24-character value: no existing session, fresh server ID, only one load under the value, logical content of every other ID unchanged; non-24-character values are never looked up.", "Coq per-call theorem over all states + correspondence with forged-cookie stream"),
+    ("C03", "C03_dead (stale record => not served, removed from cache and store, cookie expired), C03_expired_pred (Expired() false for a session Start would return), C03_live as far as proved.", "Coq per-call theorems + correspondence with waits at thresholds +-1ns + steady-client histories"),
+    ("C04", "C04_seq for regenerate/login/start (due => exactly one draw, cookie, same data/user, old ID becomes reference; not due => nothing), instances for 0 and MaxInt64; concurrent clause checked on K=2..32 real goroutines (one draw, one session) and resting on C13.", "Coq per-call theorems + correspondence + real concurrent runs"),
+    ("C05", "C05_chain (follow reaches the live session, fuel suffices under ref_wf), C05_pending/C05_grace_dead, C05_backstop, C05_expired_ref. Known finding D10 (SessionExpiry < grace) reported as KNOWN-FINDING.", "Coq per-call theorems + correspondence with chains, grace +-1ns, restarts"),
+    ("C06", "C06_ip/C06_ua (the pure rules as iff-specifications for all peers/n/agents), C06_destroy (anomaly => record destroyed, request refused), C06_moves (comparison point follows accepted requests).", "Coq pure-rule specifications + per-call theorems + correspondence over address/agent pairs"),
+    ("C07", "destroy removes the ID from cache and store and expires the cookie; history-level invariants (cache_ok/nodup_ok/fresh_ok preserved by every step) and C07_not_reissued (IDs are never drawn twice); stays-dead at history level as far as proved (_partial).", "Coq per-call lemma + history invariants + correspondence with replays of former IDs"),
+    ("C08", "C08_login/C08_logout/C08_logout_user/C08_refresh/C08_tolerant per call over memory and store.", "Coq per-call theorems + correspondence over users/sessions/stale listings"),
+    ("C18", "every CkLive carries the ID (at the end of the call) of the session returned/operated on and resolves to a non-reference record; no cookie when nothing changed; CkDelete only when the presented ID is gone; the model never emits a malformed cookie. Template attributes are tied by the harness comparing every Set-Cookie with the randomised template's own serialisation.", "Coq per-call cookie theorems + correspondence with randomised cookie templates"),
+]:
+    CLAIMED[pid] = dict(text=(SESSION_GENERIC % pid) + " " + extra, note=COMMON_NOTE + "Python oracles (checks/oracles.py) are used only to turn real traces into violations. net/http, encoding/gob|json, time, regexp assumed as specified in DESIGN.md section 4.", technique=tech, design="5/" + pid)
 
 def main():
     hooks_commits = subprocess.run(["git", "-C", "/repo", "log", "--format=%H %s"], capture_output=True, text=True).stdout.strip().split("\n")
